@@ -34,7 +34,7 @@ pub fn h_foldr_with<M: VMode, Er: VEr, const B: usize>() {
             }
             acc.wrapping_mul(31).wrapping_add(a)
         });
-        let r = p.go::<M>(inp);
+        let r = p.gov::<M>(inp);
         let s = snap(inp);
         let (v, n, items, ended_ok, pos, spec) = drive_spec::<Er>(inp, &s0, s0.pos, s0.nsec, 0, B, 0, SecSpec::pre(&s0));
         let b = lg(inp, B);
